@@ -729,8 +729,12 @@ func (t *Terminal) readLine() (line string, err error) {
 		lineOk := false
 		for !lineOk {
 			var key rune
+			before := len(rest)
 			key, rest = bytesToKey(rest, t.pasteActive)
-			if key == utf8.RuneError {
+			// RuneError with nothing consumed is a partial sequence that needs
+			// more bytes; with bytes consumed it is U+FFFD itself (or an invalid
+			// byte decoded as such) and part of the line like any other character
+			if key == utf8.RuneError && len(rest) == before {
 				break
 			}
 			if !t.pasteActive {
